@@ -173,6 +173,26 @@ def build(th, names, mol, inerts, start, scale=1.0):
     return s
 
 
+def reload(s, th, names, mol, inerts, start):
+    """Replace the contents of an existing (already flashed) stream object: its cached VLE solver is kept."""
+    if not isinstance(s, tmo.MultiStream) or 'g' not in s.phases or 'l' not in s.phases:
+        s.phases = ('g', 'l')
+    chems = th.chemicals
+    s.imol.data.clear()
+    g = s.imol.data.rows[s.imol.get_phase_index('g')].dct
+    l = s.imol.data.rows[s.imol.get_phase_index('l')].dct
+    share = start['share'] or [1.0 if start['kind'] == 'Sg' else 0.0] * len(names)
+    Fv = float(np.sum(mol))
+    for k, m, sh in zip(names, mol, share):
+        v = float(m) * sh; w = float(m) - v
+        if v: g[chems.index(k)] = v
+        if w: l[chems.index(k)] = w
+    for k, r in inerts.items():
+        (g if chems[k].locked_state == 'g' else l)[chems.index(k)] = r * Fv
+    s.T = start['T0']; s.P = start['P0']
+    return s
+
+
 def hypothetical_HS(th, names, mol, inerts, phase, T, P):
     """H and S of the same material with every volatile chemical in one phase (read from thermosteam; input only)."""
     st = dict(kind='M', share=[1.0 if phase == 'g' else 0.0] * len(names), T0=T, P0=P)
@@ -478,7 +498,56 @@ def prop_single(ch, ctx):
     spec_case(ch, ctx, pid, ideal, pair, names, np.array([1.0]), F, inerts, stratum, 'single')
 
 
-def spec_case(ch, ctx, pid, ideal, pair, names, z, F, inerts, force, label):
+HIST_PAIRS = ['TP', 'TV', 'PV', 'PH', 'PS', 'TH', 'TS']
+
+
+def prop_reuse(ch, ctx):
+    """One stream object flashed 2-3 times with its contents replaced in between (another single volatile chemical, inert gas
+    or counted solute added / removed): the solver objects cached on the stream must follow the chemicals present.  The
+    earlier flashes are history; the LAST flash is judged by the same echo / H / S clauses as `spec`."""
+    pid = ch.choice('pkg', ['A', 'B'])
+    ideal = ch.int('ideal', 0, 3) == 0
+    th = package(pid, ideal)
+    tmo.settings.set_thermo(th)
+    s = None
+    nsteps = ch.int('nprior', 1, 2)
+    for step in range(nsteps):
+        tag = f'h{step}.'
+        pair = ch.choice(tag + 'pair', HIST_PAIRS)
+        n = ch.choice(tag + 'n', [1, 1, 1, 2])
+        vol = [v for v in PKG[pid][0] if not ('S' in pair and v in S_EXCLUDE)]
+        names = ch.subset(tag + 'chems', vol, min_size=n, max_size=n)
+        names = sorted(names, key=vol.index)
+        w = np.array([ch.logfloat(tag + f'w{i}', -2, 0) for i in range(n)]); z = w / w.sum()
+        F = ch.logfloat(tag + 'F', -1, 2)
+        inerts = {}
+        for k in list(PKG[pid][1]) + list(PKG[pid][2]):
+            if ch.int(tag + 'inert.' + k, 0, 2) == 0: inerts[k] = ch.logfloat(tag + f'inert.{k}.ratio', -3, -1.3)
+        approx = reference(pid, names, ideal=True)
+        try:
+            kw, mol, _ = draw_spec_values(ch, ctx, pid, th, names, z, F, inerts, pair, approx)
+        except runner.Reject:
+            continue                                   # no admissible specification for this composition: skip the step
+        start = dict(kind='M', share=[0.0] * n, T0=300.0, P0=101325.0)
+        s = build(th, names, mol, inerts, start) if s is None else reload(s, th, names, mol, inerts, start)
+        region = f'step={step},{nvol_tag(n)},inert={int(bool(inerts))}'
+        ctx.cell('reuse:prior:' + pair)
+        try:
+            ctx.call('reuse.prior.' + pair, lambda: s.vle(**kw), allowed=REJECT, region=region)
+        except REJECT:
+            ctx.cell('reuse:prior-rejected')
+    pair = ch.choice('pair', HIST_PAIRS)
+    n = ch.choice('n', [1, 1, 1, 2])
+    vol = [v for v in PKG[pid][0] if not ('S' in pair and v in S_EXCLUDE)]
+    names = sorted(ch.subset('chems', vol, min_size=n, max_size=n), key=vol.index)
+    w = np.array([ch.logfloat(f'w{i}', -2, 0) for i in range(n)]); z = w / w.sum()
+    F = ch.logfloat('F', -1, 2)
+    inerts = draw_inerts(ch, pid)
+    ctx.cell('reuse:last:' + pair)
+    spec_case(ch, ctx, pid, ideal, pair, names, z, F, inerts, None, 'reuse', prior=s)
+
+
+def spec_case(ch, ctx, pid, ideal, pair, names, z, F, inerts, force, label, prior=None):
     start = draw_start(ch, names)
     th = package(pid, ideal)
     tmo.settings.set_thermo(th)
@@ -486,13 +555,13 @@ def spec_case(ch, ctx, pid, ideal, pair, names, z, F, inerts, force, label):
     # envelope used only to place the inputs: Raoult, except for x/y pairs where lever-rule feasibility needs the model
     approx = reference(pid, names, ideal=(True if pair[1] not in 'xy' else ideal))
     kw, mol, stratum = draw_spec_values(ch, ctx, pid, th, names, z, F, inerts, pair, approx, force=force)
-    s = build(th, names, mol, inerts, start)
+    s = build(th, names, mol, inerts, start) if prior is None else reload(prior, th, names, mol, inerts, start)
     set_default(ch, ctx, pid, ideal)
     itag = ('g' if any(th.chemicals[k].locked_state == 'g' for k in inerts) else '') + \
            ('h' if any(th.chemicals[k].locked_state != 'g' for k in inerts) else '') + \
            ('c' if any(th.chemicals[k].locked_state != 'g' and (th.chemicals[k].N_solutes or 0) for k in inerts) else '')
     # 'c': a counted non-volatile solute (N_solutes > 0) takes part in the phase-fraction balance
-    region = f'{nvol_tag(n)},inert={itag or "none"},ideal={int(ideal)},pm={pm_tag(pid, names, ideal)}'
+    region = f'{nvol_tag(n)},inert={itag or "none"},ideal={int(ideal)},pm={pm_tag(pid, names, ideal)}' + (',reused=1' if prior is not None else '')
     site = pair
     ctx.cell('spec:' + pair); ctx.cell('spec:' + nvol_tag(n)); ctx.cell('spec:inert=' + (itag or 'none'))
     ctx.cell(f'spec:{pair}:{stratum}')
@@ -510,8 +579,10 @@ def spec_case(ch, ctx, pid, ideal, pair, names, z, F, inerts, force, label):
         try: C = s.C
         except Exception: C = 0.0
         tol = tol_HS(F_mass, C, kw[q], s, q)
-        if err > tol and pair[0] == 'T':
+        n_eq = n + int('g' in itag) + int('c' in itag)       # species taking part in the phase-fraction balance
+        if err > tol and pair[0] == 'T' and n_eq >= 2:
             # T,H / T,S: the pressure is only resolved to P_tol = 1 Pa.  Accept when the returned pressure lies within
+            # (a single species has P = Psat(T) and a lever-rule split: no pressure iteration, no allowance)
             # a few P_tol of a pressure at which the specification is met (first order, measured on fresh copies).
             sens = pressure_sensitivity(ctx, th, names, mol, inerts, start, s.T, s.P, q, got)
             hist(ctx, f'{q}spec.{pair}:err/sensitivity-per-Pa', err / sens if sens else float('inf'))
@@ -870,6 +941,7 @@ def prop_scaling(ch, ctx):
 PROPS = {
     'spec': (prop_spec, 700, 26000),
     'single': (prop_single, 160, 5000),
+    'reuse': (prop_reuse, 200, 6000),
     'vspec': (prop_vspec, 250, 8000),
     'boundary': (prop_boundary, 300, 12000),
     'ideal': (prop_ideal, 250, 8000),
